@@ -535,20 +535,19 @@ impl<'p, W, R, T> CompilationScope<'p, W, R, T> {
         refs: impl IntoIterator<Item = ForwardRefRequirement>,
     ) -> Result<(), CompilationError> {
         let mut pending: Vec<ForwardRefRequirement> = refs.into_iter().collect();
-        // the requirements of a scope live in a hash set: report in a fixed order
-        pending.sort_by_key(|freq| std::cmp::Reverse((freq.ancestor_height.0, freq.ref_idx)));
         let mut seen = HashSet::new();
+        // requirements are kept in hash sets: the one that is reported must not depend on their order
+        let mut missing: Option<ForwardRefRequirement> = None;
         while let Some(freq) = pending.pop() {
-            if !seen.insert(freq.clone()) {
+            if !seen.insert(freq) {
                 continue;
             }
             let fref = &self.forward_ref(&freq);
             if !fref.fulfilled {
                 if freq.ancestor_height == self.height {
-                    return Err(CompilationError::MissingForwardImplementation {
-                        name: fref.name,
-                        spec: fref.spec.clone(),
-                    });
+                    if missing.map_or(true, |m| freq.ref_idx < m.ref_idx) {
+                        missing = Some(freq);
+                    }
                 } else {
                     self.forward_requirements.insert(freq);
                 }
@@ -564,6 +563,13 @@ impl<'p, W, R, T> CompilationScope<'p, W, R, T> {
                     pending.extend(forward_requirements.iter().cloned());
                 }
             }
+        }
+        if let Some(freq) = missing {
+            let fref = &self.forward_ref(&freq);
+            return Err(CompilationError::MissingForwardImplementation {
+                name: fref.name,
+                spec: fref.spec.clone(),
+            });
         }
         Ok(())
     }
